@@ -89,6 +89,7 @@ def plan(ctx):
     from checks import gen_proc
     m = 40 if tier == "quick" else 1500
     caps = [("cap%d" % i, gen_proc.capacity_history(rng)) for i in range(m)]
+    caps += [("rcl%d" % i, gen_proc.reconnect_limits_history(rng)) for i in range(m // 2)]
     return [("corpus", corpus(ID)), ("gen", seqs), ("proc", caps)]
 
 
